@@ -1,5 +1,6 @@
 import TFV.Properties.SelfConf
 import TFV.Properties.Src.SelfCGAAdapt
+import TFV.Properties.Src.PdpgaTrial
 #print axioms TFV.SelfConf.C14_bumped_sum
 #print axioms TFV.SelfConf.C14_newProba_dist
 #print axioms TFV.SelfConf.C14_newProba_rule
@@ -11,3 +12,4 @@ import TFV.Properties.Src.SelfCGAAdapt
 #print axioms TFV.SelfConf.C14_adaptPDP_uses_new
 #print axioms TFV.SelfConf.C14_invariant
 #print axioms TFV.SrcTie.C14_src_selfcga_adapt
+#print axioms TFV.SrcTie.C14_src_pdpga_offspring
